@@ -375,8 +375,20 @@ def run(model, col, tier):
                   f"letters beyond the count are rejected in both families ({cuts})",
                   f"only {cuts} is cut at the component count: the other family can still name missing components", SWZ, helper)
     ca = model.func("nsl/Utility.py", "ContainsAnyOf")
-    src = unparse(ca)
-    col.check("return True" in src and "return False" in src and " in search" in src.replace("  ", " "), "R13.4", "nsl/Utility.py::ContainsAnyOf", "true iff an element of the iterable is in `what`", None, "nsl/Utility.py", ca)
+    # folded by this module's own interpreter on a grid of literal strings (every pair over a 3-letter alphabet, length <= 2)
+    from ..miniev import run_pure
+    grid = ["", "a", "b", "c", "ab", "ba", "bc", "cc", "abc"]
+    bad = None
+    try:
+        for x in grid:
+            for y in grid:
+                got = run_pure(ca, (x, y))
+                if bool(got) != any(ch in y for ch in x) or not isinstance(got, bool):
+                    bad = bad or f"ContainsAnyOf({x!r}, {y!r}) folds to {got!r}"
+    except CannotEval as e:
+        raise AnalysisError(f"nsl/Utility.py::ContainsAnyOf is no longer a foldable pure helper ({e})")
+    col.check(bad is None, "R13.4", "nsl/Utility.py::ContainsAnyOf", "true iff an element of the iterable is in `what` (folded on 81 literal pairs)",
+              f"{bad}: the swizzle validators built on it accept or reject the wrong masks", "nsl/Utility.py", ca)
     # swizzle alphabets agree (R04.1)
     maps = {}
     pm = model.func(CT, "ParseSwizzleMask")
